@@ -45,7 +45,12 @@ Proof. exact (conj LehmannGenProofs.gen_add_term_is_model LehmannGenProofs.gen_t
 Print Assumptions source_termlist_is_model.
 
 (** the evaluation functions: which term list is called with which arguments, the Vanishing test, the sum over the parts,
-    the Matsubara argument 2n+1 *)
+    the Matsubara argument 2n+1.
+    The statement lists of GreensFunction::operator()(z) / of_tau are tied up to [LehmannGenEquiv.vequiv] (the interpreter
+    value_by returns the same for every zero / addition / subtraction, both values of Vanishing and SubtractDisconnected, every list
+    of part values, every argument): the source may e.g. read `Value = 0; if(!Vanishing) for(parts) Value += ..; return Value;`.
+    Until this statement read [gen_gf_value_z K NO = model_gf_value K] (the same list); every theorem below uses the lists only
+    through value_by, so nothing that was proved from the equality is lost ([source_gf_value_is_model] is unchanged). *)
 Theorem source_gf_eval_is_model :
   forall (K : Type) (NO : numops K),
     (forall R P tau beta, gen_gf_term_tau K NO R P tau beta = gf_term_tau K NO R P tau beta) /\
@@ -53,7 +58,7 @@ Theorem source_gf_eval_is_model :
      (forall t zw beta a, gen_gfpart_z K NO t zw beta a = gf_part_eval K t) /\
      (forall t zw beta a, gen_gfpart_tau K NO t zw beta a = gf_part_tau K t) /\
      (forall n, gen_gfpart_matsubara n = gf_matsubara_mult n)) /\
-    (gen_gf_value_z K NO = model_gf_value K /\ gen_gf_value_tau K NO = model_gf_value K /\
+    (LehmannGenEquiv.vequiv (gen_gf_value_z K NO) (model_gf_value K) /\ LehmannGenEquiv.vequiv (gen_gf_value_tau K NO) (model_gf_value K) /\
      (forall n, gen_gf_matsubara n = gf_total_matsubara_mult n)).
 Proof.
   exact (fun K NO => conj (LehmannGenProofsGF.gen_gf_term_tau_is_model K NO)
